@@ -3144,6 +3144,7 @@ structure PyInv (proj : Project) (s : PyImp.St) : Prop where
   heap : ∀ (h : Nat) (co : ClassObj), s.heap[h]? = some co → NsOk proj s (co.mod, co.cp) co.ns
   alls : ∀ m l, allOf s m = some l → ∀ x ∈ l, x ∈ allNames (bodyOf proj m)
   nobases : noBases proj = true → ∀ (h : Nat) (co : ClassObj), s.heap[h]? = some co → co.bases = []
+  cls : ∀ (h : Nat) (co : ClassObj), s.heap[h]? = some co → co.cp ≠ []
 
 /-- class objects persist -/
 def HeapExt (s s' : PyImp.St) : Prop := ∀ (h : Nat) (co : ClassObj), s.heap[h]? = some co → s'.heap[h]? = some co
@@ -3194,7 +3195,7 @@ theorem nsOf_bindGlobal {s : PyImp.St} {m t : Nat} {k : Name} {v : Val} :
 theorem pyInv_bindGlobal {proj : Project} {s : PyImp.St} (hI : PyInv proj s) {m : Nat} {k : Name} {v : Val}
     {sv : SVal} (hv : svalV s v = some sv) (hj : Jpy proj (m, []) [k] sv) : PyInv proj (bindGlobal s m k v) := by
   have he : HeapExt s (bindGlobal s m k v) := fun _ _ h => h
-  refine ⟨fun t => ?_, fun h co hh => ?_, hI.alls, hI.nobases⟩
+  refine ⟨fun t => ?_, fun h co hh => ?_, hI.alls, hI.nobases, hI.cls⟩
   · rw [nsOf_bindGlobal]
     split
     · rename_i hc; rw [hc.1]
@@ -3294,7 +3295,7 @@ def ExecOk (proj : Project) (S : Site) (x x' : PyImp.St × Option Ns) : Prop :=
   PyInv proj x'.1 ∧ HeapExt x.1 x'.1 ∧ FrOk proj x'.1 S x'.2 ∧ (x'.2 = none ↔ x.2 = none)
 
 theorem pyInv_err {proj : Project} {s : PyImp.St} (hI : PyInv proj s) (b : Bool) : PyInv proj { s with err := b } :=
-  ⟨hI.mods, hI.heap, hI.alls, hI.nobases⟩
+  ⟨hI.mods, hI.heap, hI.alls, hI.nobases, hI.cls⟩
 
 theorem ExecOk.refl {proj : Project} {S : Site} {x : PyImp.St × Option Ns} (hI : PyInv proj x.1)
     (hf : FrOk proj x.1 S x.2) : ExecOk proj S x x := ⟨hI, HeapExt.refl _, hf, Iff.rfl⟩
@@ -3537,7 +3538,7 @@ theorem execAll_ok {proj : Project} {m : Nat} {cp : Path} {full : List Stmt} (hb
       have hheap : HeapExt x.1 { x.1 with alls := x.1.alls.set m (some l), err := false } := fun _ _ h => h
       have hfrok : FrOk proj { x.1 with alls := x.1.alls.set m (some l), err := false } (m, []) none :=
         ⟨fun l' hl' => (by cases hl'), fun _ => rfl⟩
-      refine ⟨⟨hI.mods, hI.heap, ?_, hI.nobases⟩, hheap, hfrok, ?_⟩
+      refine ⟨⟨hI.mods, hI.heap, ?_, hI.nobases, hI.cls⟩, hheap, hfrok, ?_⟩
       · intro t l' hl' y hy
         have hl2 : allOf { x.1 with alls := x.1.alls.set m (some l) } t = some l' := hl'
         rw [allOf_set] at hl2
@@ -3572,7 +3573,20 @@ theorem finishClass_ok {proj : Project} {m : Nat} {cp : Path} {full : List Stmt}
       rw [← hs2]; simp
     have hns2 : ∀ t, nsOf s2 t = nsOf s1 t := fun t => by rw [← hs2]; rfl
     have hI2 : PyInv proj s2 := by
-      refine ⟨fun t => by rw [hns2]; exact (hI.mods t).ext hext, ?_, fun t l hl => hI.alls t l (by rw [← hs2] at hl; exact hl), ?_⟩
+      refine ⟨fun t => by rw [hns2]; exact (hI.mods t).ext hext, ?_, fun t l hl => hI.alls t l (by rw [← hs2] at hl; exact hl), ?_, ?_⟩
+      rotate_left
+      rotate_left
+      · intro h co hh
+        by_cases hlt : h < s1.heap.length
+        · have hold : s1.heap[h]? = some co := by
+            rw [← hs2] at hh; simp only at hh
+            rw [List.getElem?_append_left hlt] at hh; exact hh
+          exact hI.cls h co hold
+        · have hlen : h < s2.heap.length := (List.getElem?_eq_some_iff.1 hh).1
+          have : h = s1.heap.length := by rw [← hs2] at hlen; simp at hlen; omega
+          subst this
+          rw [hnew] at hh; injection hh with hh; subst hh
+          simp
       rotate_left
       · intro hn h co hh
         by_cases hlt : h < s1.heap.length
@@ -3664,7 +3678,7 @@ end
 /-! ## importing a module; the whole run -/
 
 theorem pyInv_ms {proj : Project} {s : PyImp.St} (hI : PyInv proj s) (ms' : List MState) : PyInv proj { s with ms := ms' } :=
-  ⟨hI.mods, hI.heap, hI.alls, hI.nobases⟩
+  ⟨hI.mods, hI.heap, hI.alls, hI.nobases, hI.cls⟩
 
 theorem ensure_ok {proj : Project} {rank : List Nat} (wf : WFacts proj rank) : ∀ f, ImpOk proj (ensure proj f)
   | 0 => fun s p hI => by simp only [ensure]; exact ⟨pyInv_err hI true, fun _ _ h => h⟩
@@ -3738,7 +3752,8 @@ theorem run_py_ok {proj : Project} {rank : List Nat} (wf : WFacts proj rank) (or
     PyInv proj (PyImp.run proj order) := by
   unfold PyImp.run
   have h0 : PyInv proj (PyImp.initSt proj) := by
-    refine ⟨fun m x v h => ?_, fun h co hh => ?_, fun m l h => ?_, fun _ h co hh => by simp [PyImp.initSt] at hh⟩
+    refine ⟨fun m x v h => ?_, fun h co hh => ?_, fun m l h => ?_, fun _ h co hh => by simp [PyImp.initSt] at hh,
+      fun h co hh => by simp [PyImp.initSt] at hh⟩
     · unfold nsOf PyImp.initSt at h
       simp only [List.getD_eq_getElem?_getD, List.getElem?_replicate] at h
       split at h <;> simp [dget] at h
@@ -4016,6 +4031,37 @@ theorem expandLoop_notfound {e : Names.Env} {i : Nat} {y : Name} {rest : List Na
   rw [Names.expandLoop]
   simp [hc, ho, hcls, hp]
 
+theorem mroFuel_head (bases : Nat → List Nat) : ∀ (f c : Nat) (l : List Nat), Mro.mroFuel bases f c = some l →
+    ∃ t, l = c :: t
+  | 0, _, _, h => by simp [Mro.mroFuel] at h
+  | f+1, c, l, h => by
+    simp only [Mro.mroFuel] at h
+    split at h
+    · injection h with h; exact ⟨[], h.symm⟩
+    · cases hm : Mro.mapOpt (Mro.mroFuel bases f) (bases c) with
+      | none => simp [hm] at h
+      | some lins =>
+        simp only [hm] at h
+        cases hp : Mro.merge (lins ++ [bases c]) with
+        | none => simp [hp] at h
+        | some t => simp only [hp, Option.map_some, Option.some.injEq] at h; exact ⟨t, h.symm⟩
+
+/-- the final linearisation of a class starts with the class itself -/
+theorem mroOf_final_head (s : St) (c : Nat) : ∃ t, Names.mroOf (finalEnv s) c = c :: t := by
+  unfold Names.mroOf finalEnv
+  simp only
+  cases hd : dget (finalMro s) c with
+  | none => exact ⟨[], rfl⟩
+  | some v =>
+    unfold finalMro at hd
+    have := dget_map_key (fun c => match Mro.mroFuel (finalBases s) (s.reg.objs.length + 1) c with
+      | some l => l
+      | none => Mro.allbasesFuel (finalBases s) (fun _ => false) (s.reg.objs.length + 1) c) _ _ _ hd
+    simp only [Option.getD_some, this]
+    cases hm : Mro.mroFuel (finalBases s) (s.reg.objs.length + 1) c with
+    | some l => simp only; exact mroFuel_head _ _ _ _ hm
+    | none => simp only [Mro.allbasesFuel]; exact ⟨_, rfl⟩
+
 /-- inside a class, an alias that maps a name to itself comes from `import y…`: `y` is a root module -/
 theorem jpd_self_root_aux {proj : Project} {rank : List Nat} (wf : WFacts proj rank) :
     ∀ {S : Site} {x : Name} {tgt : Path}, Jpd proj S x tgt → tgt = [x] → S.2 ≠ [] →
@@ -4100,7 +4146,7 @@ theorem ObjKind.ident {proj : Project} {s : St} {j : Nat} {o : Obj} {S : Site} (
 returns for `ys` looked up in object `i` (scope `S`) denotes — as an absolute dotted name — whatever
 Python gives for `ys` in `S`. -/
 theorem expand_sound {proj : Project} {rank : List Nat} (wf : WFacts proj rank) {s : St} (hI : PdInv proj s)
-    (hn : NoProcessing s) (e : Names.Env) (he : e.st = s.reg) :
+    (hn : NoProcessing s) (e : Names.Env) (he : e.st = s.reg) (hmro : ∀ c, ∃ t, Names.mroOf e c = c :: t) :
     ∀ (ys : List Name) (i : Nat) (first : Bool) (S : Site) (o : Obj) (v : SVal) (p : Path),
       s.reg.objs[i]? = some o → path s.reg i = some (sitePath proj S) → ObjKind proj S o.cls →
       Jpy proj S ys v → Names.expandLoop e i first ys = some p → AbsDenW proj p v
@@ -4151,7 +4197,7 @@ theorem expand_sound {proj : Project} {rank : List Nat} (wf : WFacts proj rank) 
         · subst hr
           simp only at hx
           rw [← hwv, scopeOf_svalOf] at hjr
-          exact expand_sound wf hI hn e he (y2 :: r) nxt false Sn on v p hon (by rw [hpn, hpn']) hkn hjr hx
+          exact expand_sound wf hI hn e he hmro (y2 :: r) nxt false Sn on v p hon (by rw [hpn, hpn']) hkn hjr hx
     by_cases hcan : canContainImports o.cls = true
     · cases hdc : dget o.contents y with
       | some c =>
@@ -4185,46 +4231,14 @@ theorem expand_sound {proj : Project} {rank : List Nat} (wf : WFacts proj rank) 
             subst hf
             rw [ht] at hcn
             by_cases hcl : o.cls = .cls
-            · -- a class: the name is looked up among the inherited members: none without base classes
+            · -- a class: the inherited-member step starts with the class itself, whose alias says `[y]` again
               rw [Names.expandLoop] at hx
-              have hcf : Names.classFind e i y = none := by
-                cases hcf : Names.classFind e i y with
-                | none => rfl
-                | some o' =>
-                  exfalso
-                  -- an entry called `y` of some class of the MRO, yet `y` is the name of a root module
-                  have hS2 : S.2 ≠ [] := by
-                    intro h0
-                    have := hk.isMod.2 h0
-                    rw [hcl] at this; simp [isModuleCls] at this
-                  obtain ⟨root, hroot⟩ := jpd_self_root wf (ht ▸ hjd) hS2
-                  obtain ⟨hrl, hrp⟩ := modIdx_spec hroot
-                  unfold Names.classFind at hcf
-                  obtain ⟨b, _, hb⟩ := List.exists_of_findSome?_eq_some hcf
-                  cases hgb : getObj e.st b with
-                  | none => simp [hgb] at hb
-                  | some bo =>
-                    simp only [hgb] at hb
-                    have hbo : s.reg.objs[b]? = some bo := by rw [← he]; exact hgb
-                    have hbl := (List.getElem?_eq_some_iff.1 hbo).1
-                    obtain ⟨kb, hkb⟩ := hI.reg.full b hbl
-                    have hpb := hI.reg.reg.keys kb b hkb
-                    have hpo' := path_child hI.reg hbo hb hpb
-                    obtain ⟨oo', hoo'⟩ : ∃ oo', s.reg.objs[o']? = some oo' :=
-                      ⟨s.reg.objs[o']'(path_lt hpo'), by simp [path_lt hpo']⟩
-                    obtain ⟨So, hko, hpso⟩ := hI.site o' oo' hoo'
-                    have hso : So = (root, []) := by
-                      refine site_unique_last wf hko.static ⟨hrl, Or.inl rfl⟩ ?_
-                      rw [hpo'] at hpso; injection hpso with hpso
-                      rw [← hpso]; simp [sitePath, hrp]
-                    subst hso
-                    rw [hpo'] at hpso; injection hpso with hpso
-                    have hl := congrArg List.length hpso
-                    simp only [sitePath, hrp, List.length_append, List.length_singleton, List.length_cons,
-                      List.length_nil] at hl
-                    have : kb = [] := List.eq_nil_of_length_eq_zero (by omega)
-                    exact (path_sound hpb).ne_nil this
-              simp [hcn, hgo, hcl, hcf, hpe] at hx
+              have hcl' : Names.classLookup e i y = some [y] := by
+                unfold Names.classLookup
+                obtain ⟨t, ht'⟩ := hmro i
+                rw [ht']
+                simp [List.findSome?, hgo, hdc, hda, ht]
+              simp [hcn, hgo, hcl, hcl', hpe] at hx
               subst hx
               simpa using hfullW
             · rw [expandLoop_notfound hcn hgo hcl hpe] at hx
@@ -4288,12 +4302,13 @@ theorem resolve_sound_state {proj : Project} {rank : List Nat} (wf : WFacts proj
     (hp : path s.reg i = some (sitePath proj S)) (hk : ObjKind proj S o.cls) {name : Path} {v : SVal} {j : Nat}
     (hj : Jpy proj S name v) (hr : Names.resolveName (finalEnv s) i name = some j) :
     identOf s.reg j = some (identSV proj v) := by
+  have hmro := mroOf_final_head s
   unfold Names.resolveName at hr
   cases hx : Names.expandName (finalEnv s) i name with
   | none => simp [hx] at hr
   | some p =>
     simp only [hx] at hr
-    have hden := expand_sound wf hI hn (finalEnv s) rfl name i true S o v p ho hp hk hj hx
+    have hden := expand_sound wf hI hn (finalEnv s) rfl hmro name i true S o v p ho hp hk hj hx
     cases hof : Names.objFor (finalEnv s) p with
     | some j' =>
       simp only [hof, Option.some.injEq] at hr; subst hr
@@ -4353,7 +4368,7 @@ theorem resolve_sound_state {proj : Project} {rank : List Nat} (wf : WFacts proj
                   have hroot : modIdx proj [r] = some m := by rw [← hpm]; exact modIdx_of_path wf.modNodup hlt
                   rcases hden r rest m rfl hroot with ⟨h0, _⟩ | ⟨_, hjr⟩
                   · exact absurd h0 hrest
-                  · have hden2 := expand_sound wf hI hn (finalEnv s) rfl rest ro true (m, []) oo v p2 hoo
+                  · have hden2 := expand_sound wf hI hn (finalEnv s) rfl hmro rest ro true (m, []) oo v p2 hoo
                       (by rw [hpro]; simp [sitePath, hpm]) hkr hjr hx2
                     exact registered_ident wf hI hden2 hof2
       | external => simp [hfo] at hr
